@@ -285,7 +285,8 @@ def rule_c14_r3(model: Model) -> RuleResult:
             r.fail(INIT, f"record stored without copy: {form[:80]}", f.loc(good[0][1]),
                    "the instance shares its set-field record with the caller (and with copies of itself)")
         elif not re.search(r"(None is \$kwargs\.pop\('%s', None\)|\$kwargs\.pop\('%s', None\) is None)" % (kwname, kwname), form) \
-                and not any(re.search(r"None is \$kwargs\.pop\('%s'" % kwname, nz.literal(x.ast, x)[0]) for x in cfg.nodes if x.kind == 'cond'):
+                and not any(re.search(r"(None is \$kwargs\.pop\('%s', None\)|\$kwargs\.pop\('%s', None\) is None)" % (kwname, kwname),
+                                      nz.literal(x.ast, x)[0]) for x in cfg.nodes if x.kind == 'cond'):
             r.fail(INIT, f"tests {form[:100]}", f.loc(good[0][1]),
                    "the supplied record must be applied whenever it is given (`is not None`): a truthiness test ignores the empty record, "
                    "so Cls.from_data({}) reports every field as explicitly set")
